@@ -1355,19 +1355,18 @@ func execC09(c *vf.Ctx, d *vf.Driver, cs c09Case) {
 		if goOut.Tag == "panic" && mOut.Tag == "panic" {
 			return // unvalidated short Ed25519/Ed448 keys: both panic at the seed slice (C07 territory)
 		}
-		if !c09Cmp(c, cs, "SetKey+MarshalJSON", goOut, mOut) {
-			return
-		}
 		if goOut.Tag == "ok" {
+			// the independent predicate first (strict classes), then the comparison with the model
 			c.Count("go-set-marshal-ok:" + cs.Mut)
 			back, perr := jwk.ParseKey(out)
 			if perr != nil {
 				c08Fail(c, "property", "c09-go-marshalled-not-reparsable:"+cs.Mat.Kind, "MarshalJSON of a Key holding this Go object emits a JWK that ParseKey rejects ("+cs.Mut+"): "+perr.Error(), cs, string(out), "a JWK that parses back")
-				return
-			}
-			if why := c09Consistent(back.PrivateKey(), back.PublicKey()); why != "" {
+			} else if why := c09Consistent(back.PrivateKey(), back.PublicKey()); why != "" {
 				c08Fail(c, "property", "c09-go-marshalled-inconsistent:"+cs.Mat.Kind, "MarshalJSON emitted the JWK of an inconsistent key ("+cs.Mut+"): "+why, cs, string(out), "error")
 			}
+		}
+		if !c09Cmp(c, cs, "SetKey+MarshalJSON", goOut, mOut) {
+			return
 		}
 		if k != nil && goOut.Tag == "ok" {
 			// a key accepted by New*Key: its JWK must parse back too
